@@ -110,7 +110,8 @@ def _gaf_schema_of(repo, f, rule):
     used = {a.id for a in argmap.values() if isinstance(a, ast.Name) and a.id in var_col}
     for name, ds in local_defs(f.node).items():
         if name in used:
-            extra = [d for d in ds if d is not None and not cols_of(d)]
+            # (a None bound in the "not a number" arm of an inlined validation helper is a sentinel, not a value)
+            extra = [d for d in ds if d is not None and not cols_of(d) and not (isinstance(d, ast.Constant) and d.value is None)]
             if extra:
                 rebound[name] = [norm(d) for d in extra]
     extras = {"tags_attr": param_attr.get("tags", "tags"), "cigar_attr": param_attr.get("cigar", "cigar"), "class": ctor.cls, "fields_var": fields_var, "rebound": rebound, "n_col_vars": len(used), "parser_nf": f}
